@@ -64,21 +64,27 @@ Theorem C13_zf_returns_its_cost : forall pmf G K fuel ystar s S g,
   zf_from pmf G K fuel ystar = Ok (s, S, g) -> (s < S)%Z /\ g = gcost pmf G K s S.
 Proof. exact zf_returns_its_cost. Qed.
 
-(* (v) optimality. Full statement (NOT proved here; checked by exhaustive window search on the implementation): *)
+(* (v) optimality: no integer pair s' < S' is cheaper than the returned pair (Zheng-Federgruen's theorem), custom-pmf entry point *)
 Definition zf_optimal_statement : Prop := forall h p K pmf fuel s S g,
   (forall l, 0 <= pf pmf l) -> qsum pmf == 1 -> pf pmf 0 < 1 ->
   s_s_discrete_exact h p K pmf fuel = Ok (s, S, g) ->
   forall s' S', (s' < S')%Z -> g <= gcost pmf (Gdisc h p pmf) K s' S'.
-(* Proved part, custom-pmf entry point: the returned pair (s,S) with reported cost g satisfies
+Theorem C13_zf_optimal : zf_optimal_statement.
+Proof. exact exact_optimal. Qed.
+(* the same for an arbitrary one-period cost G and start ystar (the Poisson entry point, G and ystar being SciPy outputs),
+   CONDITIONAL on G being unimodal at ystar and on the pmf summing to one: for Poisson these are properties of SciPy's
+   numbers / of the untruncated pmf, so for that entry point optimality remains an oracle (window search) result *)
+Theorem C13_zf_optimal_anyG : forall pmf G K, pf pmf 0 < 1 -> (forall l, 0 <= pf pmf l) -> qsum pmf == 1 -> 0 < K ->
+  forall ystar, (forall y, (y < ystar)%Z -> G (y + 1)%Z <= G y) -> (forall y, (ystar <= y)%Z -> G y <= G (y + 1)%Z) ->
+  forall fuel s S g, zf_from pmf G K fuel ystar = Ok (s, S, g) ->
+  forall s' S', (s' < S')%Z -> g <= gcost pmf G K s' S'.
+Proof. exact zf_from_optimal. Qed.
+(* structure of the returned pair (s,S) with reported cost g, custom-pmf entry point:
      s < ystar <= S;  g = c(s,S);  the two termination tests c(s,S) <= G(s), G(s+1) < c(s,S);
-     s is a GLOBAL minimiser of c(.,S) over all s' < S  (uses unimodality of Gdisc at ystar, proved);
+     s minimises c(.,S) over all s' < S;
      the scan stopped at some Send > S with G(Send) > g, and every S < t < Send had G(t) <= g and c(s,t) >= g;
-     g <= c(s0,ystar) for the first pair (s0,ystar) the search visited.
-   Missing for zf_optimal_statement: (a) no S' >= Send can be optimal (ZF's upper bound, needs G(t) >= G(Send) > g for
-   t >= Send AND the renewal-reward comparison of c(s',S') with min_t G(t)); (b) for S < t < Send the test is only on
-   c(s,t) with the current s, not on min_s' c(s',t) (ZF Lemma: cmin(t) < cmin iff c(s,t) < cmin); (c) S' < ystar is never
-   optimal; (d) pairs (s_k,S_k) visited earlier dominate all S' <= S. *)
-Theorem C13_zf_optimal_partial : forall h p K pmf fuel s S g,
+     g <= c(s0,ystar) for the first pair (s0,ystar) the search visited. *)
+Theorem C13_zf_structure : forall h p K pmf fuel s S g,
   (forall l, 0 <= pf pmf l) -> qsum pmf == 1 -> pf pmf 0 < 1 ->
   s_s_discrete_exact h p K pmf fuel = Ok (s, S, g) ->
   let c := gcost pmf (Gdisc h p pmf) K in let G := Gdisc h p pmf in
@@ -87,10 +93,9 @@ Theorem C13_zf_optimal_partial : forall h p K pmf fuel s S g,
   (exists Send, (S < Send)%Z /\ g < G Send /\ forall t, (S < t < Send)%Z -> G t <= g /\ g <= c s t) /\
   (exists s0, (s0 < ystar_disc h p pmf)%Z /\ g <= c s0 (ystar_disc h p pmf)).
 Proof. exact (fun h p K pmf fuel s S g => exact_spec h p K pmf fuel s S g). Qed.
-(* Proved part for an arbitrary one-period cost / start (the Poisson entry point, G and ystar being SciPy outputs): the same,
-   with "s minimises c(.,S)" conditional on G being unimodal at ystar (for Poisson that is a property of SciPy's numbers:
-   checked by the harness on the table, not proved); unconditionally s is a local minimiser of c(.,S). *)
-Theorem C13_zf_optimal_partial_anyG : forall pmf G K fuel ystar s S g,
+(* for an arbitrary one-period cost / start (no unimodality assumed): the same structure, s a local minimiser of c(.,S),
+   and a global one if G is unimodal at ystar *)
+Theorem C13_zf_structure_anyG : forall pmf G K fuel ystar s S g,
   (forall l, 0 <= pf pmf l) -> pf pmf 0 < 1 -> 0 < K ->
   zf_from pmf G K fuel ystar = Ok (s, S, g) ->
   let c := gcost pmf G K in
@@ -127,6 +132,8 @@ Print Assumptions C13_entry_cost_is_stationary_cost.
 Print Assumptions C13_one_period_cost.
 Print Assumptions C13_entry_total.
 Print Assumptions C13_zf_returns_its_cost.
-Print Assumptions C13_zf_optimal_partial.
-Print Assumptions C13_zf_optimal_partial_anyG.
+Print Assumptions C13_zf_optimal.
+Print Assumptions C13_zf_optimal_anyG.
+Print Assumptions C13_zf_structure.
+Print Assumptions C13_zf_structure_anyG.
 Print Assumptions C13_Gdisc_unimodal.
